@@ -5,6 +5,19 @@ ROOT = os.path.dirname(os.path.dirname(os.path.abspath(__file__)))
 ids = [json.loads(l)["id"] for l in open(os.path.join(ROOT, "properties.jsonl"))]
 
 CLAIMED = {
+ "C14": dict(
+   text="Lean 4 theorems over Model/ClientState.lean (get/set/clear_state_data of FrameworkIntegration and StarletteIntegration, _clear_session_state, the authorize_redirect / "
+        "authorize_access_token pairs; any number of sessions and providers): callback_proceeds_implies_begun_in_same_session_partial (for EVERY history of begin / callback / "
+        "clock operations in session storage: a callback that goes on to the token endpoint was preceded by a begin in the SAME session creating exactly that key, and the "
+        "verifier / nonce / redirect_uri used are the ones saved), state_single_use_partial (after a callback the same state is a mismatch after ANY later history that does "
+        "not begin that key again in that session), callback_without_entry_is_mismatch_partial (no request: Out.mismatch carries none), other_sessions_untouched_partial, "
+        "keyOf_injective (provider names without '_'). NEGATION proved for cache storage: cache_mode_foreign_session_completes (replayed on Flask, Django, Starlette: known finding), "
+        "and the '_' key collision (known finding). Correspondence: histories on the three real integrations × session/cache × PKCE × OpenID with a recording transport; "
+        "per-step outputs and final session/cache contents compared; statement oracle ties the data sent to the authorization URL (S256 of the verifier, redirect_uri, ID-token nonce verdict).",
+   note="PARTIAL as labelled: the theorems carry cacheMode = false; the statement's 'with or without a shared cache' is false of the code (known finding C14-cache-foreign-session). "
+        "Trusted: Lean kernel; harness-side sessions (dicts carried between requests), plain cache object, deterministic token generator; OAuth 1 apps share the same state functions and are not driven separately.",
+   technique="Lean 4 proof (history invariant + step characterisation, negation witness for cache mode) + differential correspondence on histories over three frameworks + statement oracle",
+   design="§4 C14"),
  "C19": dict(
    text="Lean 4 theorems (Props/C19.lean): script level — orderOk_consume_only_after_store and orderOk_respond_last: for EVERY script obeying the order discipline and "
         "EVERY fault position k, the exchanged credential is consumed only after its replacement was stored, and nothing is written after the response was built; "
